@@ -8,6 +8,12 @@ Emits Gen/CApi.lean:
   * copyCstrShape     — the literal (whitespace-free) body of `copy_cstr`, recognised against the reviewed shapes
                         (1 = fixed code: leave room for the NUL, step back to a char boundary; 0 = the code before
                         the fix).  Any other body raises ExtractError: the byte-level model no longer describes it;
+  * callerCopyShape   — the literal body of `copy_cstr_to_caller` (the truncating copy into a CALLER's buffer), recognised
+                        against the reviewed shapes (1 = steps back to a char boundary, 0 = the byte cut before the fix);
+  * callerBufParams   — EVERY `*mut c_char` parameter of an exported function with its length parameter and the way
+                        it is written: 0 = `copy_cstr_to_caller(<buf>, <len>, …)` behind a NULL check, 1 = the reviewed
+                        all-or-nothing shape of chewing_phone_to_bopomofo; anything else raises ExtractError, and so
+                        does a `slice::from_raw_parts_mut` / `copy_cstr_to_caller` site outside these;
   * exportedFns       — every `pub [unsafe] extern "C" fn` of io.rs: (name, ctx parameter kind 0 none / 1 *const /
                         2 *mut, number of `unsafe {` blocks in its body, may-mutate-the-user-dictionary);
   * dictMutFns        — names of the functions classified as possibly mutating the user dictionary: the body calls
@@ -52,6 +58,19 @@ COPY_FIXED = ("letmutn=min(buf.len().saturating_sub(1),buffer.len());while!buffe
 COPY_OLD = ("letn=min(buf.len(),buffer.len());buf.fill(0);buf[..n].copy_from_slice(&buffer.as_bytes()[..n]);"
             "buf.as_ptr().cast()")
 
+
+CALLER_FIXED = ("ifcap==0{return;}letmutn=min(src.len(),capasusize-1);while!src.is_char_boundary(n){n-=1;}"
+                "letsrc=src.as_bytes();letbuf=unsafe{slice::from_raw_parts_mut(buf.cast::<u8>(),n+1)};"
+                "buf[..n].copy_from_slice(&src[..n]);buf[n]=0;")
+CALLER_OLD = ("ifcap==0{return;}letn=min(src.len(),capasusize-1);"
+              "letbuf=unsafe{slice::from_raw_parts_mut(buf.cast::<u8>(),n+1)};"
+              "buf[..n].copy_from_slice(&src[..n]);buf[n]=0;")
+# chewing_phone_to_bopomofo: writes the whole text + NUL when it fits, nothing otherwise
+PHONE_HEAD = "letsyl_str=matchSyllable::try_from(phone){Ok(s)=>s.to_string(),Err(_)=>returnERROR,};"
+PHONE_FIT = ("if!buf.is_null()&&lenasusize>=(syl_str.len()+1){"
+             "letbuf=unsafe{slice::from_raw_parts_mut(buf.cast(),lenasusize)};"
+             "buf[0..syl_str.len()].copy_from_slice(syl_str.as_bytes());buf[syl_str.len()]=0;}"
+             "(syl_str.len()+1)asc_int")
 
 
 def ws(s):
@@ -158,6 +177,19 @@ def capi():
     else:
         raise ExtractError("copy_cstr has an unrecognised body: " + body)
 
+    # --- caller buffers ----------------------------------------------------------------------------------------
+    m = re.search(r"\bunsafe\s+fn\s+copy_cstr_to_caller\s*\(([^)]*)\)", io)
+    if not m:
+        raise ExtractError("copy_cstr_to_caller not found")
+    sig = ws(m.group(1))
+    cbody = ws(fn_body(io, "copy_cstr_to_caller"))
+    if cbody == CALLER_FIXED and sig == "buf:*mutc_char,cap:c_uint,src:&str":
+        caller_shape = 1
+    elif cbody == CALLER_OLD and sig == "buf:*mutc_char,cap:c_uint,src:&[u8]":
+        caller_shape = 0
+    else:
+        raise ExtractError("copy_cstr_to_caller has an unrecognised signature/body: (" + sig + ") " + cbody)
+
     # --- OWNED / chewing_free ---------------------------------------------------------------------------------
     owned = block_after(io, r"\benum\s+Owned\s*\{")
     kinds = [re.sub(r"\(.*\)", "", p.strip()) for p in split_top(owned, ',') if p.strip()]
@@ -190,6 +222,7 @@ def capi():
     iter_sites = {f: [] for f in ITER_FIELDS}
     getters = []
     heap_getters = []
+    caller_params = []
     for name, params, fbody in fns:
         first = params.split(',')[0]
         if re.search(r"\*\s*mut\s+ChewingContext", first):
@@ -222,6 +255,25 @@ def capi():
                 iter_sites[f].append(name)
         for b in re.findall(r"copy_cstr\s*\(\s*&mut\s+ctx\s*\.\s*([a-z_]+)\s*,", fbody):
             getters.append((name, b))
+        # every text buffer the CALLER supplies: `<buf>: *mut c_char` followed by its length parameter
+        plist = [ws(x) for x in split_top(params, ',') if x.strip()]
+        for i, prm in enumerate(plist):
+            pname, _, ptype = prm.partition(':')
+            if ptype == "*mutc_char":
+                if i + 1 >= len(plist) or not re.fullmatch(r"[a-z_]*len:c_(uint|ushort)", plist[i + 1]):
+                    raise ExtractError(f"{name}: caller buffer {pname} is not followed by a length parameter")
+                lname = plist[i + 1].partition(':')[0]
+                wb0 = ws(fbody)
+                trunc = f"if!{pname}.is_null(){{"
+                if wb0.count(f"copy_cstr_to_caller({pname},{lname},") == 1 and wb0.count(pname) == 2 and trunc in wb0:
+                    caller_params.append((name, pname, lname, 0))
+                elif name == "chewing_phone_to_bopomofo" and wb0 == PHONE_HEAD + PHONE_FIT and (pname, lname) == ("buf", "len"):
+                    caller_params.append((name, pname, lname, 1))
+                else:
+                    raise ExtractError(f"{name}: caller buffer ({pname}, {lname}) is written in an unreviewed way: " + wb0[-400:])
+            elif ptype.startswith("*mut") and ptype not in ("*mutChewingContext", "*mutc_void", "*mutc_uint", "*mutc_int",
+                                                    "*mutIntervalType", "*mut*mutc_char", "*mutChewingConfigData"):
+                raise ExtractError(f"{name}: out-parameter {prm} of an unreviewed type")
         rows.append([name, kind, unsafe_blocks])
         wb = ws(fbody)
         if "owned_into_raw(Owned::CString" in wb:
@@ -235,6 +287,13 @@ def capi():
             raise ExtractError(f"{name}: {n_raw} into_raw conversions but {n_reg} owned_into_raw registrations")
     if len(re.findall(r"\bcopy_cstr\s*\(", io)) != len(getters) + 1 + io.count("pub fn verif_copy_cstr"):
         raise ExtractError("copy_cstr is called in an unrecognised way (reviewed: copy_cstr(&mut ctx.<buf>, …))")
+    n_trunc = sum(1 for c in caller_params if c[3] == 0)
+    if len(re.findall(r"\bcopy_cstr_to_caller\s*\(", io)) != n_trunc + 1:
+        raise ExtractError("copy_cstr_to_caller is called outside the reviewed caller-buffer parameters")
+    if len(re.findall(r"\bfrom_raw_parts_mut\b", io)) != 1 + sum(1 for c in caller_params if c[3] == 1):
+        raise ExtractError("a new `slice::from_raw_parts_mut` site (reviewed: copy_cstr_to_caller, chewing_phone_to_bopomofo)")
+    if re.search(r"copy_nonoverlapping|ptr::write|\.write_bytes\(|\.write_unaligned\(", io):
+        raise ExtractError("raw pointer writes of an unreviewed kind in capi/src/io.rs")
     mut = dict(direct)
     changed = True
     while changed:
@@ -270,6 +329,13 @@ def capi():
          lean_list([f"({lean_str(a)}, {lean_str(b)})" for a, b in getters], 2) + "\n\n"
     t += "/-- recognised body of `copy_cstr`: 1 = reserves the NUL and steps back to a character boundary, 0 = `min(cap, len)` -/\n"
     t += f"def copyCstrShape : Nat := {copy_shape}\n\n"
+    t += ("/-- recognised body of `copy_cstr_to_caller` (truncating copy into a caller's buffer): 1 = `min(len, cap-1)` stepped "
+          "back to a character boundary, 0 = the plain byte cut before the fix -/\n")
+    t += f"def callerCopyShape : Nat := {caller_shape}\n\n"
+    t += ("/-- EVERY `*mut c_char` parameter of an exported function: (function, buffer, length parameter, kind) with kind 0 = "
+          "written by `copy_cstr_to_caller(buffer, length, …)`, 1 = all-or-nothing (chewing_phone_to_bopomofo) -/\n")
+    t += "def callerBufParams : List (String × String × String × Nat) := " + \
+         lean_list([f"({lean_str(a)}, {lean_str(b)}, {lean_str(c)}, {k})" for a, b, c, k in sorted(caller_params)], 1) + "\n\n"
     t += "/-- recognised rebuild arms of `chewing_free`: 1 = `Vec<c_ushort>`, 0 = `Vec<c_void>` (layout mismatch) -/\n"
     t += f"def freeShape : Nat := {free_shape}\n\n"
     t += "/-- 1 = `chewing_free` removes the registry entry it releases (`map.remove`), 0 = it only looks it up (`map.get`) -/\n"
